@@ -13,7 +13,7 @@ use serde_json::{json, Value};
 use std::collections::{BTreeMap, HashMap, HashSet};
 use std::sync::Mutex;
 
-pub const MAIN_TEXTS: [&str; 12] = [
+pub const MAIN_TEXTS: [&str; 14] = [
     "",
     "lda",
     "lda #",
@@ -28,6 +28,10 @@ pub const MAIN_TEXTS: [&str; 12] = [
     ".const k = 1 + /* one\n  two */ 13\na: lda #k\n  .byte 1 +\n2\njmp a\n",
     // imports by name and under another name
     ".import foo, bar as baz from \"other.asm\"\na: nop\njsr foo\njsr baz\njmp a\n",
+    // a segment whose name is interpolated, inside a scope that has a symbol of that name of its own
+    ".define segment {\nname = \"code\"\nstart = $1000\n}\n.const seg = \"code\"\ns: {\n  .const seg = \"code\"\n  .segment \"{seg}\" { nop }\n}\n.segment \"{seg}\" { rts }\n",
+    // a file that imports itself
+    ".import * from \"main.asm\"\na: nop\n",
 ];
 pub const OTHER_TEXTS: [&str; 3] = ["foo: nop\n", "foo: nop\nbar: rts\n", "foo: {\n"];
 pub const STRAY_TEXTS: [&str; 1] = ["lda #1\nzz: nop\n"];
@@ -76,6 +80,10 @@ pub enum Event {
     Rename(usize, u32, u32, String),
     CodeLens(usize),
     Formatting(usize),
+    /// read-only requests as events: a request must not change what later requests are answered
+    DocSymbol(usize),
+    SemTokens(usize),
+    WorkspaceSymbol,
 }
 
 impl Event {
@@ -87,6 +95,9 @@ impl Event {
             Event::Rename(f, l, c, n) => json!({"rename": FILES[*f], "line": l, "character": c, "newName": n}),
             Event::CodeLens(f) => json!({"codeLens": FILES[*f]}),
             Event::Formatting(f) => json!({"formatting": FILES[*f]}),
+            Event::DocSymbol(f) => json!({"documentSymbol": FILES[*f]}),
+            Event::SemTokens(f) => json!({"semanticTokens": FILES[*f]}),
+            Event::WorkspaceSymbol => json!({"workspaceSymbol": ""}),
         }
     }
     fn kind(&self) -> &'static str {
@@ -97,6 +108,9 @@ impl Event {
             Event::Rename(..) => "rename",
             Event::CodeLens(..) => "codeLens",
             Event::Formatting(..) => "formatting",
+            Event::DocSymbol(..) => "documentSymbol",
+            Event::SemTokens(..) => "semanticTokens",
+            Event::WorkspaceSymbol => "workspaceSymbol",
         }
     }
 }
@@ -144,6 +158,13 @@ pub fn apply_event(s: &mut Server, e: &Event) -> Result<(), Death> {
                 json!({"textDocument": {"uri": uri(FILES[*f])}, "options": {"tabSize": 4, "insertSpaces": true}}),
             )
             .map(|_| ()),
+        Event::DocSymbol(f) => s
+            .request("textDocument/documentSymbol", json!({"textDocument": {"uri": uri(FILES[*f])}}))
+            .map(|_| ()),
+        Event::SemTokens(f) => s
+            .request("textDocument/semanticTokens/full", json!({"textDocument": {"uri": uri(FILES[*f])}}))
+            .map(|_| ()),
+        Event::WorkspaceSymbol => s.request("workspace/symbol", json!({"query": ""})).map(|_| ()),
     }
 }
 
@@ -491,8 +512,13 @@ fn enabled_events(buffers: &Buffers, thorough: bool) -> Vec<Event> {
             if f < 3 {
                 ev.push(Event::CodeLens(f));
                 ev.push(Event::Formatting(f));
+                ev.push(Event::DocSymbol(f));
+                ev.push(Event::SemTokens(f));
             }
         }
+    }
+    if buffers.iter().any(|b| b.is_some()) {
+        ev.push(Event::WorkspaceSymbol);
     }
     // renames at identifier occurrences of the open main buffer
     if let Some(t) = buffers[0] {
@@ -659,7 +685,10 @@ pub fn run(ctx: &Ctx, replay: Option<&Value>) -> i32 {
                         ));
                     }
                 }
-                if seen.lock().unwrap().insert((b, d)) {
+                // (up to depth 3 every history is extended, whatever its state looks like: a server may carry state
+                // that none of the answers shows yet - the canonical key only prunes deeper levels)
+                let fresh = seen.lock().unwrap().insert((b, d));
+                if fresh || depth <= 2 {
                     ctx.nontrivial(fnv_str(&format!("{:?}{}", b, d)));
                     let mut sh = sample_histories.lock().unwrap();
                     if sh.len() < 300 {
@@ -705,7 +734,7 @@ pub fn run(ctx: &Ctx, replay: Option<&Value>) -> i32 {
         closure,
         &[
             "stdio framing is exercised only by the conformance replays against the real `mos lsp` process",
-            "texts are a fixed ladder of 12+3+1 buffers (thorough: plus every token-boundary prefix of the two-scope program); positions are byte columns as the server interprets them",
+            "texts are a fixed ladder of 14+3+1 buffers (thorough: plus every token-boundary prefix of the two-scope program); positions are byte columns as the server interprets them",
             "quick: depth bound 3 and reduced battery; thorough: search to closure",
         ],
     )
@@ -730,6 +759,9 @@ fn stale_cause(hist: &[Event]) -> String {
             Event::Rename(..) => return "rename".into(),
             Event::Formatting(_) => return "formatting".into(),
             Event::CodeLens(_) => return "codeLens".into(),
+            Event::DocSymbol(_) => return "documentSymbol".into(),
+            Event::SemTokens(_) => return "semanticTokens".into(),
+            Event::WorkspaceSymbol => return "workspaceSymbol".into(),
             _ => {}
         }
     }
